@@ -40,6 +40,13 @@ struct Shared {
     write_waker: Option<Waker>,
     parsed: usize,
     fed: Vec<u8>,
+    /// the transport itself answers the CONNECT with a success CONNACK the instant it has been written completely
+    auto_connack: bool,
+    connack_sent: bool,
+    /// after the CONNACK has been consumed: end the connection (EOF) after this much REAL time (the client measures
+    /// connection lifetimes with std::time::Instant, which a paused tokio clock does not virtualise)
+    close_after_real_us: Option<u64>,
+    close_polls: u32,
 }
 
 struct ScriptedStream(Arc<Mutex<Shared>>);
@@ -58,6 +65,17 @@ impl AsyncRead for ScriptedStream {
         }
         if s.read_err { return Poll::Ready(Err(std::io::Error::from(std::io::ErrorKind::ConnectionReset))); }
         if s.eof { return Poll::Ready(Ok(())); }
+        if s.connack_sent {
+            if let Some(us) = s.close_after_real_us {
+                // let the listener callbacks of the CONNACK run first, then burn the real time, then end the connection
+                s.close_polls += 1;
+                if s.close_polls <= 3 { cx.waker().wake_by_ref(); return Poll::Pending; }
+                drop(s);
+                if us > 0 { std::thread::sleep(Duration::from_micros(us)); }
+                self.0.lock().unwrap().eof = true;
+                return Poll::Ready(Ok(()));
+            }
+        }
         s.read_waker = Some(cx.waker().clone());
         Poll::Pending
     }
@@ -71,6 +89,15 @@ impl AsyncWrite for ScriptedStream {
         let mut n = data.len();
         if s.write_chunk > 0 { n = n.min(s.write_chunk); }
         s.written.extend_from_slice(&data[..n]);
+        if s.auto_connack && !s.connack_sent {
+            let framed = rc::frame(&s.written);
+            if framed.frames.iter().any(|(first, _, _, _)| first >> 4 == rc::CONNECT) {
+                let bytes = rc::encode(&Packet::new(rc::CONNACK).with("session_present", V::Flag(false)).with("reason_code", V::U(0)), true, None);
+                s.inbox.extend(bytes.iter()); s.fed.extend(bytes.iter());
+                s.connack_sent = true;
+                if let Some(w) = s.read_waker.take() { w.wake(); }
+            }
+        }
         Poll::Ready(Ok(n))
     }
     fn poll_flush(self: Pin<&mut Self>, _: &mut Context<'_>) -> Poll<std::io::Result<()>> { Poll::Ready(Ok(())) }
@@ -93,6 +120,15 @@ struct ClientCfg {
     #[serde(default)] base_ms: Option<u64>,
     #[serde(default)] max_ms: Option<u64>,
     #[serde(default)] stable_ms: Option<u64>,
+    /// microsecond forms (C19); *_tok: "" | "durmax" (Duration::MAX) | "halfplus" (just above half of Duration::MAX)
+    #[serde(default)] base_us: Option<u64>,
+    #[serde(default)] max_us: Option<u64>,
+    #[serde(default)] stable_us: Option<u64>,
+    #[serde(default)] base_tok: String,
+    #[serde(default)] max_tok: String,
+    /// timer granularity of the driver (tokio timers: 1 ms) and tolerance when comparing a measured lifetime with the stability period
+    #[serde(default)] slack_us: u64,
+    #[serde(default)] life_slack_us: u64,
     /// "none" | "uniform" | "" (library default)
     #[serde(default)] jitter: String,
     #[serde(default)] connect_timeout_ms: Option<u64>,
@@ -110,6 +146,9 @@ enum Step {
     Close {},
     /// what the next connection attempts yield: ok | refuse | hang
     ConnectPlan { #[serde(default = "d_ok")] mode: String },
+    /// outcomes of the next attempts, one per attempt: refuse | hang | ok | up (accepted, CONNACK sent by the transport, stays up)
+    /// | life:<real us> (accepted, CONNACK sent by the transport, ended by the peer after that much real time); then ConnectPlan applies
+    ConnectPlanSeq { modes: Vec<String> },
     /// let virtual time pass (the runtime auto-advances its paused clock when every task is idle)
     Run { #[serde(default = "d_ms")] ms: u64 },
     Yield { #[serde(default = "d_one")] n: usize },
@@ -141,7 +180,8 @@ struct Run {
     t0: tokio::time::Instant,
     conns: Arc<Mutex<Vec<Arc<Mutex<Shared>>>>>,
     plan: Arc<Mutex<String>>,
-    events: Arc<Mutex<Vec<(u64, String)>>>,
+    plan_seq: Arc<Mutex<VecDeque<String>>>,
+    events: Arc<Mutex<Vec<(u64, u64, u64, String)>>>,
     auto: bool,
     pending: Vec<(u64, OpFuture)>,
     next_op: u64,
@@ -157,8 +197,8 @@ impl Run {
     }
 
     fn flush_client_events(&mut self) {
-        let list: Vec<(u64, String)> = std::mem::take(&mut *self.events.lock().unwrap());
-        for (t, kind) in list { self.tr.emit("ClientEv", vec![("t", json!(t)), ("kind", json!(kind))]); }
+        let list: Vec<(u64, u64, u64, String)> = std::mem::take(&mut *self.events.lock().unwrap());
+        for (t, tus, rus, kind) in list { self.tr.emit("ClientEv", vec![("t", json!(t)), ("kind", json!(kind)), ("tus", json!(verif_harness::trace::clamp31(tus))), ("rus", json!(verif_harness::trace::clamp31(rus)))]); }
     }
 
     fn current(&self) -> Option<Arc<Mutex<Shared>>> { self.conns.lock().unwrap().last().cloned() }
@@ -240,6 +280,12 @@ async fn run_script(script: &Script, run_no: u64, tr: Trace) -> Trace {
     if let Some(x) = cfg.base_ms { cb.with_base_reconnect_period(Duration::from_millis(x)); }
     if let Some(x) = cfg.max_ms { cb.with_max_reconnect_period(Duration::from_millis(x)); }
     if let Some(x) = cfg.stable_ms { cb.with_reconnect_stability_reset_period(Duration::from_millis(x)); }
+    let tok = |t: &str| -> Option<Duration> { match t { "durmax" => Some(Duration::MAX), "halfplus" => Some(Duration::from_secs(u64::MAX / 2 + 1)), _ => None } };
+    if let Some(x) = cfg.base_us { cb.with_base_reconnect_period(Duration::from_micros(x)); }
+    if let Some(x) = cfg.max_us { cb.with_max_reconnect_period(Duration::from_micros(x)); }
+    if let Some(x) = cfg.stable_us { cb.with_reconnect_stability_reset_period(Duration::from_micros(x)); }
+    if let Some(d) = tok(&cfg.base_tok) { cb.with_base_reconnect_period(d); }
+    if let Some(d) = tok(&cfg.max_tok) { cb.with_max_reconnect_period(d); }
     match cfg.jitter.as_str() { "none" => { cb.with_reconnect_period_jitter(ExponentialBackoffJitterType::None); } "uniform" => { cb.with_reconnect_period_jitter(ExponentialBackoffJitterType::Uniform); } _ => {} }
     if let Some(x) = cfg.connect_timeout_ms { cb.with_connect_timeout(Duration::from_millis(x)); }
     match cfg.policy.as_str() { "All" => { cb.with_offline_queue_policy(OfflineQueuePolicy::PreserveAll); } "None" => { cb.with_offline_queue_policy(OfflineQueuePolicy::PreserveNothing); } _ => {} }
@@ -249,13 +295,15 @@ async fn run_script(script: &Script, run_no: u64, tr: Trace) -> Trace {
 
     let conns: Arc<Mutex<Vec<Arc<Mutex<Shared>>>>> = Arc::new(Mutex::new(Vec::new()));
     let plan = Arc::new(Mutex::new("ok".to_string()));
-    let events: Arc<Mutex<Vec<(u64, String)>>> = Arc::new(Mutex::new(Vec::new()));
+    let events: Arc<Mutex<Vec<(u64, u64, u64, String)>>> = Arc::new(Mutex::new(Vec::new()));
+    let plan_seq: Arc<Mutex<VecDeque<String>>> = Arc::new(Mutex::new(VecDeque::new()));
+    let r0 = std::time::Instant::now();
     let attempts: Arc<Mutex<Vec<(u64, String)>>> = Arc::new(Mutex::new(Vec::new()));
     let t0 = tokio::time::Instant::now();
 
-    let (fconns, fplan, fattempts) = (conns.clone(), plan.clone(), attempts.clone());
+    let (fconns, fplan, fattempts, fseq) = (conns.clone(), plan.clone(), attempts.clone(), plan_seq.clone());
     let factory = Box::new(move || -> Pin<Box<dyn Future<Output = gneiss_mqtt::error::GneissResult<ScriptedStream>> + Send>> {
-        let mode = fplan.lock().unwrap().clone();
+        let mode = fseq.lock().unwrap().pop_front().unwrap_or_else(|| fplan.lock().unwrap().clone());
         let t = (tokio::time::Instant::now() - t0).as_millis() as u64;
         fattempts.lock().unwrap().push((t, mode.clone()));
         let conns = fconns.clone();
@@ -263,7 +311,17 @@ async fn run_script(script: &Script, run_no: u64, tr: Trace) -> Trace {
             match mode.as_str() {
                 "refuse" => Err(gneiss_mqtt::error::GneissError::from(std::io::Error::from(std::io::ErrorKind::ConnectionRefused))),
                 "hang" => { tokio::time::sleep(Duration::from_secs(1_000_000)).await; Err(gneiss_mqtt::error::GneissError::from(std::io::Error::from(std::io::ErrorKind::TimedOut))) }
-                _ => { let shared = Arc::new(Mutex::new(Shared::default())); shared.lock().unwrap().write_stall = mode == "ok_stalled"; conns.lock().unwrap().push(shared.clone()); Ok(ScriptedStream(shared)) }
+                _ => {
+                    let shared = Arc::new(Mutex::new(Shared::default()));
+                    {
+                        let mut s = shared.lock().unwrap();
+                        s.write_stall = mode == "ok_stalled";
+                        if mode == "up" { s.auto_connack = true; }
+                        if let Some(us) = mode.strip_prefix("life:") { s.auto_connack = true; s.close_after_real_us = Some(us.parse().unwrap_or(0)); }
+                    }
+                    conns.lock().unwrap().push(shared.clone());
+                    Ok(ScriptedStream(shared))
+                }
             }
         })
     });
@@ -271,13 +329,16 @@ async fn run_script(script: &Script, run_no: u64, tr: Trace) -> Trace {
     let client = new_tokio_client(cb.build(), co.build(), TokioOptions::builder(tokio::runtime::Handle::current()).build(), factory);
     let ev_sink = events.clone();
     let listener: Arc<ClientEventListenerCallback> = Arc::new(move |e: Arc<ClientEvent>| {
-        if let Some(kind) = event_kind(&e) { let t = (tokio::time::Instant::now() - t0).as_millis() as u64; ev_sink.lock().unwrap().push((t, kind.to_string())); }
+        if let Some(kind) = event_kind(&e) { let d = tokio::time::Instant::now() - t0; ev_sink.lock().unwrap().push((d.as_millis() as u64, d.as_micros() as u64, r0.elapsed().as_micros() as u64, kind.to_string())); }
     });
 
-    let mut r = Run { tr, t0, conns, plan, events, auto: cfg.auto_broker, pending: Vec::new(), next_op: 1, broker_pid_seen: Vec::new() };
+    let mut r = Run { tr, t0, conns, plan, plan_seq, events, auto: cfg.auto_broker, pending: Vec::new(), next_op: 1, broker_pid_seen: Vec::new() };
     r.tr.begin_run(run_no);
     r.tr.emit("Cfg", vec![("src", json!(cfg.src)), ("driver", json!("tokio")), ("baseMs", json!(cfg.base_ms.map(|x| x as i64).unwrap_or(-1))), ("maxMs", json!(cfg.max_ms.map(|x| x as i64).unwrap_or(-1))),
-        ("stableMs", json!(cfg.stable_ms.map(|x| x as i64).unwrap_or(-1))), ("jitter", json!(cfg.jitter)), ("faithful", json!(0)), ("policy", json!(cfg.policy))]);
+        ("stableMs", json!(cfg.stable_ms.map(|x| x as i64).unwrap_or(-1))), ("jitter", json!(cfg.jitter)), ("faithful", json!(0)), ("policy", json!(cfg.policy)),
+        ("baseUs", json!(if !cfg.base_tok.is_empty() { 0x7FFF_FFFF } else { cfg.base_us.map(|x| verif_harness::trace::clamp31(x)).unwrap_or(-1) })),
+        ("maxUs", json!(if !cfg.max_tok.is_empty() { 0x7FFF_FFFF } else { cfg.max_us.map(|x| verif_harness::trace::clamp31(x)).unwrap_or(-1) })),
+        ("stableUs", json!(cfg.stable_us.map(|x| verif_harness::trace::clamp31(x)).unwrap_or(-1))), ("slackUs", json!(cfg.slack_us)), ("lifeSlackUs", json!(cfg.life_slack_us))]);
     let mut first_start = true;
     let mut closed = false;
 
@@ -295,6 +356,7 @@ async fn run_script(script: &Script, run_no: u64, tr: Trace) -> Trace {
             }
             Step::Close {} => { let res = client.close(); closed = true; r.emit("User", vec![("req", json!("UserClose")), ("accepted", json!(res.is_ok() as u8))]); }
             Step::ConnectPlan { mode } => { *r.plan.lock().unwrap() = mode.clone(); }
+            Step::ConnectPlanSeq { modes } => { let mut q = r.plan_seq.lock().unwrap(); q.clear(); q.extend(modes.iter().cloned()); }
             Step::Run { ms } => {
                 // advance in small slices so the automatic broker keeps up
                 let mut left = *ms;
@@ -359,7 +421,8 @@ async fn run_script(script: &Script, run_no: u64, tr: Trace) -> Trace {
             }
             Step::Settle { ms } => {
                 let mut left = (*ms).max(100);
-                while left > 0 { let d = left.min(100); tokio::time::sleep(Duration::from_millis(d)).await; left -= d; r.settle_tasks(3).await; r.poll_results().await; }
+                let chunk = (left / 300).max(100);
+                while left > 0 { let d = left.min(chunk); tokio::time::sleep(Duration::from_millis(d)).await; left -= d; r.settle_tasks(3).await; r.poll_results().await; }
             }
         }
         r.observe();
